@@ -299,28 +299,34 @@ fn classes(id: &str, thorough: bool) -> Vec<Class> {
         }
         out
     };
+    let w3 = words(alpha, 3);
     if id == "C01" {
         if !thorough {
-            v.push(Class { desc: "2 threads x <=2 ops".into(), progs: multisets(&w2, 2), budget: b(4, 1, 0) });
-            v.push(Class { desc: "3 threads x 1 op".into(), progs: multisets(&w1, 3), budget: b(3, 1, 0) });
-            v.push(Class { desc: "3 threads, one with 2 ops".into(), progs: one_long(3), budget: b(2, 1, 0) });
-            v.push(Class { desc: "4 threads x 1 op".into(), progs: multisets(&w1, 4), budget: b(2, 1, 0) });
-        } else {
-            v.push(Class { desc: "2 threads x <=2 ops, stale reads".into(), progs: multisets(&w2, 2), budget: b(4, 2, 1) });
+            v.push(Class { desc: "2 threads x <=2 ops, stale reads".into(), progs: multisets(&w2, 2), budget: b(6, 2, 1) });
+            v.push(Class { desc: "3 threads x 1 op, stale reads".into(), progs: multisets(&w1, 3), budget: b(4, 2, 1) });
             v.push(Class { desc: "3 threads x <=2 ops".into(), progs: multisets(&w2, 3), budget: b(3, 1, 0) });
-            v.push(Class { desc: "3 threads x 1 op, stale reads".into(), progs: multisets(&w1, 3), budget: b(3, 2, 1) });
             v.push(Class { desc: "4 threads x 1 op".into(), progs: multisets(&w1, 4), budget: b(3, 1, 0) });
             v.push(Class { desc: "4 threads, one with 2 ops".into(), progs: one_long(4), budget: b(2, 1, 0) });
+        } else {
+            v.push(Class { desc: "2 threads x <=3 ops, stale reads".into(), progs: multisets(&w3, 2), budget: b(6, 2, 2) });
+            v.push(Class { desc: "3 threads x <=2 ops, stale reads".into(), progs: multisets(&w2, 3), budget: b(3, 2, 1) });
+            v.push(Class { desc: "3 threads x <=2 ops, deeper preemption".into(), progs: multisets(&w2, 3), budget: b(4, 1, 0) });
+            v.push(Class { desc: "4 threads x 1 op, stale reads".into(), progs: multisets(&w1, 4), budget: b(3, 2, 1) });
+            v.push(Class { desc: "4 threads x 1 op, deeper preemption".into(), progs: multisets(&w1, 4), budget: b(4, 1, 0) });
+            v.push(Class { desc: "4 threads x <=2 ops".into(), progs: multisets(&w2, 4), budget: b(2, 1, 0) });
+            v.push(Class { desc: "5 threads x 1 op".into(), progs: multisets(&w1, 5), budget: b(2, 1, 0) });
         }
     } else if !thorough {
-        v.push(Class { desc: "2 threads x <=2 ops".into(), progs: multisets(&w2, 2), budget: b(3, 1, 0) });
-        v.push(Class { desc: "3 threads x 1 op".into(), progs: multisets(&w1, 3), budget: b(3, 1, 0) });
-        v.push(Class { desc: "4 threads x 1 op".into(), progs: multisets(&w1, 4), budget: b(2, 0, 0) });
+        v.push(Class { desc: "2 threads x <=2 ops, stale reads".into(), progs: multisets(&w2, 2), budget: b(4, 1, 1) });
+        v.push(Class { desc: "3 threads x 1 op".into(), progs: multisets(&w1, 3), budget: b(3, 2, 0) });
+        v.push(Class { desc: "3 threads, one with 2 ops".into(), progs: one_long(3), budget: b(2, 1, 0) });
+        v.push(Class { desc: "4 threads x 1 op".into(), progs: multisets(&w1, 4), budget: b(2, 1, 0) });
     } else {
-        v.push(Class { desc: "2 threads x <=2 ops, stale reads".into(), progs: multisets(&w2, 2), budget: b(4, 2, 1) });
-        v.push(Class { desc: "3 threads x 1 op, stale reads".into(), progs: multisets(&w1, 3), budget: b(3, 2, 1) });
+        v.push(Class { desc: "2 threads x <=2 ops, stale reads".into(), progs: multisets(&w2, 2), budget: b(6, 2, 2) });
+        v.push(Class { desc: "3 threads x 1 op, stale reads".into(), progs: multisets(&w1, 3), budget: b(4, 2, 1) });
         v.push(Class { desc: "3 threads, one with 2 ops".into(), progs: one_long(3), budget: b(3, 1, 0) });
         v.push(Class { desc: "4 threads x 1 op".into(), progs: multisets(&w1, 4), budget: b(3, 1, 0) });
+        v.push(Class { desc: "4 threads, one with 2 ops".into(), progs: one_long(4), budget: b(2, 0, 0) });
     }
     v
 }
@@ -336,6 +342,8 @@ fn run_lock(id: &'static str, args: &Args) -> Report {
     let mut class_notes = Vec::new();
     let only: Option<String> = args.rest.iter().position(|a| a == "--prog").map(|i| args.rest[i + 1].clone());
     let mut determinism_checked = false;
+    // wall cap per program (seconds): a hit is reported as a cap, the class is then not complete
+    let class_cap: u64 = std::env::var("VERIF_PROG_CAP_S").ok().and_then(|s| s.parse().ok()).unwrap_or(if args.thorough { 900 } else { 120 });
     for class in classes(id, args.thorough) {
         let t0 = now();
         let mut cs = 0u64;
@@ -348,7 +356,7 @@ fn run_lock(id: &'static str, args: &Args) -> Report {
                 }
             }
             let model = LockModel { id, prog: prog.clone(), try_point_limit: 40 };
-            let cfg = Config { budget: class.budget, max_steps: 5_000, workers: n_workers(), max_schedules: 0, stop_at_first: false };
+            let cfg = Config { budget: class.budget, max_steps: 5_000, workers: n_workers(), max_schedules: 0, stop_at_first: false, max_seconds: class_cap };
             let st = ilv::explore(&model, &cfg);
             if !determinism_checked {
                 // replay the first execution twice: identical traces or the machinery is unsound
@@ -374,6 +382,12 @@ fn run_lock(id: &'static str, args: &Args) -> Report {
             }
             for (k, c) in &st.outcomes {
                 r.outcome_n(&format!("{name} => {k}"), *c);
+            }
+            if st.time_cap_hit {
+                r.cap(format!("{name} P{} D{} W{}: wall cap of {class_cap}s hit after {} schedules; exploration of this program is incomplete", class.budget.p, class.budget.d, class.budget.w, st.schedules));
+            }
+            if args.rest.iter().any(|a| a == "--progress") {
+                eprintln!("{id} {name} P{} D{} W{}: {} schedules {:.1}s{}", class.budget.p, class.budget.d, class.budget.w, st.schedules, t0.elapsed().as_secs_f64(), if st.time_cap_hit { " CAPPED" } else { "" });
             }
             if st.step_cap_hits > 0 {
                 r.cap(format!("{name}: {} executions hit the step horizon", st.step_cap_hits));
